@@ -165,6 +165,8 @@ public:
 		return s;
 	}
 	bool beyondPrefix() const { return pos > prefix.size(); }
+	// the next choose() call will create a new stack entry (it is not a replay of the prefix or of the current DFS path)
+	bool atFrontier() const { return !defaultsOnly && pos >= prefix.size() && (pos - prefix.size()) >= stack.size(); }
 };
 
 // ---------------------------------------------------------------- context
